@@ -3,6 +3,9 @@ import PrysmVerif.Lemmas.C18
 import Mathlib.Tactic.FieldSimp
 import Mathlib.Tactic.LinearCombination
 import Mathlib.Algebra.Order.Field.Basic
+import Mathlib.Algebra.Order.Floor.Ring
+import Mathlib.Analysis.SpecialFunctions.Sqrt
+import PrysmVerif.Lemmas.PyArith
 import Mathlib.Algebra.BigOperators.Group.List.Basic
 import Mathlib.Algebra.BigOperators.Ring.List
 /-!
@@ -100,6 +103,37 @@ theorem window_in_bounds (c ic s n : Int) (hs : 0 ≤ s) (hn : 0 ≤ n) :
   simp only [Generated.C18.windowLoX, Generated.C18.windowHiX, Generated.C18.windowLoY, Generated.C18.windowHiY,
     windowLo, windowHi, clamp]
   refine ⟨?_, ?_, ?_, ?_, ?_, ?_, ?_, ?_⟩ <;> split_ifs <;> omega
+
+/-- `samples_per_seg = int(rseg/dx + 1)` is `⌊rseg/dx⌋ + 1` for a non-negative ratio -/
+theorem samples_per_seg (b : Rat) (hb : 0 ≤ b) : Generated.C18.samplesPerSeg b = ((⌊b⌋ + 1 : Int) : Rat) := by
+  unfold Generated.C18.samplesPerSeg pyTruncRat
+  have : ¬ (b + 1 < 0) := by linarith
+  rw [if_neg this, Rat.floor_eq_intFloor]
+  simp
+
+/-- the (unclamped) window of a segment covers every sample whose coordinate lies within `± rseg` of the segment centre,
+EXCEPT possibly ONE line of samples: with `a = centre/dx`, `ia = int(a)`, `b = rseg/dx`, `s = ⌊b⌋ + 1`, origin sample
+`n // 2` and the code's centre index `c = ceil(n/2)`, every such sample `i` satisfies `lo − δ ≤ i < hi + 1 − δ`,
+`δ = c − n//2 ∈ {0, 1}`: for odd `n` the line just below the window, for even `n` the line just above it, may be cut off
+(the one-sample truncation of the design; it can only remove samples at the very tip/edge of the hexagon) -/
+theorem window_covers {K : Type} [Field K] [LinearOrder K] [IsStrictOrderedRing K]
+    (n ia fb i : Int) (a b : K) (hia : |a - (ia : K)| < 1) (hfb : (fb : K) ≤ b ∧ b < (fb : K) + 1)
+    (hin : a - b ≤ ((i - n / 2 : Int) : K) ∧ ((i - n / 2 : Int) : K) ≤ a + b) :
+    let c := Generated.C18.centreIndexX n
+    let s := fb + 1
+    (c - n / 2 = 0 ∨ c - n / 2 = 1) ∧
+    (c + ia - s) - (c - n / 2) ≤ i ∧ i < (c + ia - s + 2 * s) + 1 - (c - n / 2) := by
+  intro c s
+  have hc : c = -((-n) / 2) := rfl
+  obtain ⟨h1, h2⟩ := abs_lt.mp hia
+  obtain ⟨g1, g2⟩ := hin
+  have lo : ((ia - fb - 2 : Int) : K) < ((i - n / 2 : Int) : K) := by
+    push_cast at g1 ⊢; linarith [hfb.2]
+  have hi : ((i - n / 2 : Int) : K) < ((ia + fb + 2 : Int) : K) := by
+    push_cast at g2 ⊢; linarith [hfb.2]
+  have lo' := Int.cast_lt.mp lo
+  have hi' := Int.cast_lt.mp hi
+  refine ⟨by omega, by omega, by omega⟩
 
 /-! ## hexagons do not overlap -/
 
@@ -408,5 +442,20 @@ theorem prims_symmetric (width height a b c s x y : K) :
   · simp only [Generated.C18.vane, Model.C18.vane, abs_neg]
 
 end prims
+
+/-! ## non-vacuity -/
+
+/-- `√3` instantiates the hypotheses on `w` -/
+example : ∃ w : ℝ, w * w = 3 ∧ 0 < w :=
+  ⟨Real.sqrt 3, Real.mul_self_sqrt (by norm_num), Real.sqrt_pos.mpr (by norm_num)⟩
+
+example : (Generated.C18.hexRing 3).length = 18 ∧ (⟨3, -1, -2⟩ : Hex) ∈ Generated.C18.hexRing 3 := by decide
+
+/-- a clamped and an unclamped window -/
+example : Generated.C18.windowLoX 32 25 12 64 = 45 ∧ Generated.C18.windowHiX 32 25 12 64 = 64 ∧
+    Generated.C18.windowLoX 32 5 12 64 = 25 ∧ Generated.C18.windowHiX 32 5 12 64 = 49 := by decide
+
+/-- two distinct cube cells on the plane `q + r + s = 0` (hypotheses of `hex_disjoint`) -/
+example : ((⟨1, -1, 0⟩ : Hex) ≠ ⟨0, 1, -1⟩) ∧ (1 : Int) + -1 + 0 = 0 := by decide
 
 end C18
